@@ -221,6 +221,12 @@ func (f *p2pFam) Exec(r *hx.Run, op []string) string {
 		}
 	corrupt:
 		for _, i := range cutPoints(len(data)) {
+			if i >= 4 && i < 16 {
+				continue // command field: the checksum does not cover the header, ping <-> pong style changes are valid frames
+			}
+			if (i == 18 || i == 19) && data[20]%8 != 0 {
+				continue // high length bytes make ReadMessage allocate up to 30 MB per attempt: examined for the frames whose first checksum byte is a multiple of 8
+			}
 			for _, mask := range []byte{0x01, 0x80, 0xff} {
 				c := append([]byte{}, data...)
 				c[i] ^= mask
@@ -300,17 +306,26 @@ func (f *p2pFam) genMsg(r *hx.Run, kind string) mt.Message {
 	case "notfound":
 		return &mt.NotFound{Hash: h32()}
 	case "tx":
-		t, err := decodeTx(serTx(f.led.genTx(r, 16)))
-		if err != nil {
-			panic(err)
+		for attempt := 0; ; attempt++ {
+			if attempt == 20 {
+				return nil
+			}
+			traw := serTx(f.led.genTx(r, 16))
+			t, err := decodeTx(traw)
+			if err != nil {
+				r.Viol("C05:valid-tx-rejected", fmt.Sprintf("valid transaction %s rejected: %v", trunc(hx.Hex(traw), 300), err))
+				continue
+			}
+			return &mt.Trn{Txn: t}
 		}
-		return &mt.Trn{Txn: t}
 	case "block":
 		blk := &ct.Block{Header: f.led.genHeader(r)}
 		for j := r.Rng.Intn(4); j > 0; j-- {
-			t, err := decodeTx(serTx(f.led.genTx(r, 3)))
+			traw := serTx(f.led.genTx(r, 3))
+			t, err := decodeTx(traw)
 			if err != nil {
-				panic(err)
+				r.Viol("C05:valid-tx-rejected", fmt.Sprintf("valid transaction %s rejected: %v", trunc(hx.Hex(traw), 300), err))
+				continue
 			}
 			blk.Transactions = append(blk.Transactions, t)
 		}
@@ -392,6 +407,9 @@ func (f *p2pFam) Gen(r *hx.Run) {
 			newCase(kind)
 			magic := magics[r.Rng.Intn(len(magics))]
 			m := f.genMsg(r, kind)
+			if m == nil {
+				continue
+			}
 			frame := writeFrame(magic, m)
 			keys := keyOracle(frame)
 			out := r.Do(fmt.Sprintf("rd %d %s %s", magic, hx.Hex(frame), keys))
